@@ -353,7 +353,8 @@ class StmtMixin:
         finfo = self.cur_func_of_node(node)
         if finfo is None or self.registry is None:
             return None
-        return self.registry.loop_spec(finfo, node)
+        root = self.registry.contracts.get(self.cur_root_target_inline) if self.cur_root_target_inline else None
+        return self.registry.loop_spec(finfo, node, root)
 
     def cur_func_of_node(self, node):
         return getattr(node, '_pyvc_func', None)
@@ -370,16 +371,39 @@ class StmtMixin:
 
     def ex_For(self, s, st):
         def fin(itv, s1):
+            if isinstance(itv, tuple) and len(itv) == 3 and isinstance(itv[0], str) and itv[0] == 'generator':
+                return self.exec_fused_generator(s, itv, s1)
             if isinstance(itv, Ref) and s1.obj(itv).kind == 'smap':
                 itv = s1.alloc(HObj('smapitems', meta={'map': itv, 'what': 'keys'}))
             seq = self.concrete_iterable(itv, s1)
             spec = self.loop_spec(s)
-            if seq is not None and spec is None:
+            if seq is not None and (spec is None or not spec.iterate_concrete_list_symbolically):
                 return self.unroll_for(s, seq, s1)
             if spec is None:
                 raise EngineError(f'for loop over symbolic iterable without invariant at line {s.lineno}')
             return self.exec_loop_with_invariant(s, s1, spec, kind='for', iterable=itv)
         return self.lift(self.eval(s.iter, st), fin)
+
+    def exec_fused_generator(self, s, gen, st):
+        _, finfo, genv = gen
+        if s.orelse:
+            raise EngineError('for/else over a generator')
+        genv = dict(genv)
+        genv['$yield_to'] = s
+        st.stack.append(st.env)
+        st.env = genv
+        out = []
+        for o, s1 in self.exec_block(finfo.node.body, st):
+            s1.env = s1.stack.pop()
+            if o[0] in ('normal', 'return'):
+                out.append((NORMAL, s1))
+            elif o[0] == 'raise':
+                out.append((o, s1))
+            elif o[0] == 'raise_consumer':
+                out.append((('raise', o[1]), s1))
+            else:
+                raise EngineError('break/continue escaped generator')
+        return out
 
     def concrete_iterable(self, v, st):
         """A finite, concretely known sequence of values, or None."""
@@ -467,6 +491,8 @@ class StmtMixin:
         for name in sorted(mods):
             if name in st.env or spec.local_types.get(name) is not None:
                 st.env[name] = ctx.havoc_local(name, st.env.get(name), spec)
+        for name, t in spec.outer_local_types.items():
+            st.stack[-1][name] = self.make_symbolic(t, name, st)
         spec.havoc_heap(ctx)
         if kind == 'for':
             ctx.havoc_index()
@@ -477,6 +503,7 @@ class StmtMixin:
         results = []
         alts = []
         alt_items = []
+        alt_states = []
         # --- one arbitrary iteration
         if kind == 'while':
             conds = self.eval(s.test, st.fork())
@@ -492,6 +519,7 @@ class StmtMixin:
                     exit_states.append(s1)
                     continue
                 v0 = spec.variant(ctx.at(s1)) if spec.variant is not None else None
+                before = ctx.at(s1.fork()) if spec.iteration_checks is not None else None
                 body_in = [(NORMAL, s1)]
                 cur_item = None
                 if kind == 'for':
@@ -510,16 +538,20 @@ class StmtMixin:
                                 v1 = spec.variant(c2)
                                 self.oblige(s3, f'{lid}.variant_decreases', z3.And(v1 < v0, v0 > 0),
                                             kind='loop-variant', line=line)
+                            if spec.iteration_checks is not None:
+                                for name, f in spec.iteration_checks(before, c2, list(s3.trace[trace_mark:])).items():
+                                    self.oblige(s3, f'{lid}.iteration.{name}', f, kind='loop-iteration', line=line)
                             alts.append(list(s3.trace[trace_mark:]))
+                            alt_states.append(s3)
                             alt_items.append(ctx.current_item(s1) if kind == 'for' and False else cur_item)
                         elif bo[0] == 'break':
-                            s3.trace[trace_mark:trace_mark] = [LoopSummary(lid, alts, line, s3.held, alt_items, iterable)]
+                            s3.trace[trace_mark:trace_mark] = [LoopSummary(lid, alts, line, s3.held, alt_items, iterable, alt_states, ctx)]
                             results.append((NORMAL, s3))
                         else:
-                            s3.trace[trace_mark:trace_mark] = [LoopSummary(lid, alts, line, s3.held, alt_items, iterable)]
+                            s3.trace[trace_mark:trace_mark] = [LoopSummary(lid, alts, line, s3.held, alt_items, iterable, alt_states, ctx)]
                             results.append((bo, s3))
         for s1 in exit_states:
-            s1.trace[trace_mark:trace_mark] = [LoopSummary(lid, alts, line, s1.held, alt_items, iterable)]
+            s1.trace[trace_mark:trace_mark] = [LoopSummary(lid, alts, line, s1.held, alt_items, iterable, alt_states, ctx)]
             if kind == 'for':
                 ctx.at_exit(s1)
             if s.orelse:
